@@ -349,19 +349,25 @@ func checkFact(c Case) {
 }
 
 // checkCodec verifies the model's table of what the standard encoders can write and read back.
-func checkCodec(c Case) {
+func checkCodec(c Case) string {
 	if c.Fmt == "text" {
-		return // goa's own text encoder: behaviour under test, not an environment fact
+		return "" // goa's own text encoder: behaviour under test, not an environment fact
 	}
 	v := mkValue(c.Kind)
 	b, err := stdEncode(c.Fmt, v)
 	can := err == nil && stdDecodes(c.Fmt, b, v)
 	if can != c.Can {
+		if c.Kind == "errresp" {
+			// goahttp.ErrorResponse brings its own (un)marshalling code: that it survives an encoding is goa's
+			// behaviour, not a fact about the environment
+			return fmt.Sprintf("goahttp.ErrorResponse does not survive %s: encoded and decoded with the standard %s codec it comes back different (%v)", c.Fmt, c.Fmt, err)
+		}
 		vio.Die("environment fact changed: model says %s can carry %s = %v, the standard library says %v (%v)", c.Fmt, c.Kind, c.Can, can, err)
 	}
 	if can && sniff(b, v) != c.Fmt {
 		vio.Die("body sniffing is ambiguous for %s/%s", c.Fmt, c.Kind)
 	}
+	return ""
 }
 
 // ---------------------------------------------------------------- random cases
@@ -507,8 +513,11 @@ func main() {
 			checkFact(c)
 			w.Emit(map[string]any{"i": i, "fact": "ok"})
 		case "codec":
-			checkCodec(c)
-			w.Emit(map[string]any{"i": i, "fact": "ok"})
+			if bad := checkCodec(c); bad != "" {
+				w.Emit(map[string]any{"i": i, "fact": "goa", "detail": bad, "fmt": c.Fmt, "kind": c.Kind})
+			} else {
+				w.Emit(map[string]any{"i": i, "fact": "ok"})
+			}
 		default:
 			obs, evs := run(c)
 			w.Emit(map[string]any{"i": i, "obs": obs, "events": evs})
